@@ -89,6 +89,21 @@ def scenarios(ob):
                 break
         if not out and not job.ready():
             out.append('job lost at t=1000 with a timeout of 10 s is still unresolved at t=%.0f' % clock[0])
+    elif 'exit_status' in ob:
+        # which worker died decides the status in the record, wherever it stands in the worker list and whoever else
+        # exits in the same tick
+        for owner_at, statuses in ((0, [-9, None, None]), (2, [None, None, -9]), (1, [None, 3, None]), (0, [-9, 70, None]),
+                                   (1, [70, -9, None])):
+            ws = [FakeWorker(100 + i, exitcode=st) for i, st in enumerate(statuses)]
+            p = mkpool(ws)
+            job = pool.ApplyResult(p._cache, None)
+            job._ack(None, 900.0, 100 + owner_at, None)
+            p._join_exited_workers()
+            want = statuses[owner_at]
+            if job._worker_lost is None or job._worker_lost[1] != want:
+                out.append('workers %r exit with %r in one tick; the job of worker %d got the loss record %r (expected status %r)' % (
+                    [w.pid for w in ws], statuses, 100 + owner_at, job._worker_lost, want))
+                break
     elif 'reaps_nothing' in ob:
         # D12: the worker that accepted the job was reaped before its ACK was handled; no other worker exits afterwards
         p = mkpool([FakeWorker(7), FakeWorker(8)])
@@ -140,7 +155,7 @@ def main():
         known = data.get('known_finding_obligations', [])
         if known:
             print('  known findings skipped: %s' % ', '.join(known))
-        for name in ('grace_period', 'registries', 'never_replaced', 'vanished_worker', 'reaps_nothing', 'reaped_worker_is_marked', 'other'):
+        for name in ('grace_period', 'registries', 'never_replaced', 'vanished_worker', 'reaps_nothing', 'exit_status', 'reaped_worker_is_marked', 'other'):
             if not any(name in k for k in known):
                 bad += scenarios(name)
     else:
